@@ -493,6 +493,8 @@ def exec_for(engine, ctx, st: ast.For, env: Env):
         raise EngineLimit("for/else over a symbolic domain")
     if not mutates_outer_collections(st.body, env):
         return exec_forall(engine, ctx, st, env, it)
+    if _append_loop(engine, ctx, st, env, it):
+        return
     b = bind_domain(engine, ctx, it)
     before = set(env.vars.keys())
     snapshot = dict(env.vars)
@@ -567,6 +569,45 @@ def exec_search(engine, ctx, st: ast.For, env: Env, it):
     ctx.assume(mk_forall([j], z3.Implies(z3.And(0 <= j, j < k), z3.Not(cond(j))), patterns=[z3.Select(seq.arr, j)]))
     engine.assign(ctx, st.target, elem(k), env)
     engine.exec_block(ctx, iff.body[:-1], env)
+
+
+def _append_loop(engine, ctx, st: ast.For, env: Env, it) -> bool:
+    """`for x in <symbolic sequence>: L.append(e)` with L a local list bound before the loop and the append the only
+    statement of the body: executed as `L = L + [e for x in <sequence>]` (the comprehension machinery gives the mapped
+    sequence).  Any other in-place growth of a Python list inside a loop over a symbolic domain without invariant is an
+    engine limit: executing the body once for an arbitrary element would append ONE element, which is not what the loop does."""
+    lists = [n for n, v in env.vars.items() if isinstance(v, PyList)]
+
+    def touches_list(node):
+        if isinstance(node, ast.Call) and isinstance(node.func, ast.Attribute) and node.func.attr in ("append", "extend", "insert") \
+                and isinstance(node.func.value, ast.Name) and node.func.value.id in lists:
+            return True
+        if isinstance(node, ast.AugAssign) and isinstance(node.target, ast.Name) and node.target.id in lists:
+            return True
+        return False
+
+    hits = [n for b in st.body for n in ast.walk(b) if touches_list(n)]
+    if not hits:
+        return False
+    only = st.body[0] if len(st.body) == 1 else None
+    simple = (only is not None and isinstance(only, ast.Expr) and isinstance(only.value, ast.Call) and only.value is hits[0]
+              and len(hits) == 1 and only.value.func.attr == "append" and len(only.value.args) == 1 and not only.value.keywords
+              and isinstance(it, SymSeq))
+    if not simple:
+        raise EngineLimit("a Python list is grown in place inside a loop over a symbolic domain (no invariant given)")
+    name = only.value.func.value.id
+    comp = ast.ListComp(elt=only.value.args[0],
+                        generators=[ast.comprehension(target=st.target, iter=st.iter, ifs=[], is_async=0)])
+    ast.copy_location(comp, st)
+    ast.fix_missing_locations(comp)
+    mapped = engine.eval(ctx, comp, env)
+    if isinstance(mapped, V.MappedIter):
+        mapped = list_of_mapped(engine, ctx, mapped)
+    cur = env.vars[name]
+    if not cur.fresh:
+        ctx.oblige("%s/frame#aliased-mutation" % short(ctx.func), False, kind="frame")
+    env.vars[name] = engine.lib.seq_concat(ctx, cur, mapped) if isinstance(mapped, SymSeq) else PyList(cur.items + list(mapped.items))
+    return True
 
 
 def exec_for_invariant(engine, ctx, st: ast.For, env: Env, it, inv):
@@ -719,6 +760,8 @@ def exec_for_invariant(engine, ctx, st: ast.For, env: Env, it, inv):
             ctx.oblige("%s/inv-step#%s" % (label, lab), lift_bool(c), kind="inv-step")
         for lab, c in class_inv_items():
             ctx.oblige("%s/inv-step#class.%s" % (label, lab), lift_bool(c), kind="inv-step")
+        # the end of an arbitrary iteration must be reachable under the assumed invariant (else inv-step is vacuous)
+        ctx.guards.append(("loop%d-step" % loop_ordinal(env, st), list(ctx.pc), list(ctx.axioms), list(ctx.taken)))
         raise PathEnd()
     # exit: invariant holds at i = max(lo, hi)
     ctx.assume(z3.If(hi >= lo, i == hi, i == lo))
